@@ -71,6 +71,9 @@ def crawl_site(chk: Check, site: driver.Site, view: str, kind_of: typing.Dict[by
         descend = v.klass in ("menu", "info") or (v.klass == "any" and (entry is None or entry.type in (None, "1")))
         if descend and (entry is None or not entry.search):
             try:
+                if fam in ("http", "wap"):
+                    mpath = re.match(rb"(?:GET|HEAD) (\S+)", req)
+                    crawl.CURRENT_PAGE_PATH = mpath.group(1).decode("latin-1").split("?")[0] if mpath else "/"
                 entries = crawl.entries_if_menu(view, resp, v)
             except Exception as e:  # parser of the listing
                 chk.witness("C05/listing-unreadable:%s:%s" % (fam, type(e).__name__), dict(sample, error=repr(e)))
@@ -137,6 +140,10 @@ def extra_names(rng, model: sites.SiteModel) -> None:
               "semi;colon.txt", "quote\"d.txt", "tick'd.txt", "<angle>.txt", "hash#tag.txt", "plus+plus.txt",
               "archive;2019/old-x.txt", "archive/new-a.txt", "report.txt;1", "report.txt", "a+b dir/plus.txt", "a b dir/blank.txt",
               "q=1&r=2/amp.txt", "it's (here), really!/x.txt", "$cash*star/y.txt",
+              # decomposed accents, Hangul jamo, the Angstrom and Ohm signs (names as they are, not as some normal form)
+              "cafe\u0301.txt", "re\u0301sume\u0301/x.txt", "\u1112\u1161\u11ab.txt", "\u212bngstrom \u2126.txt",
+              # 'URL:' in a later path component, or inside a name, is just part of a name
+              "refs/URL:list.txt", "refs/cURL:howto.txt", "refs/URL:mirror/x.txt", "refs/see URL:http:here.txt",
               "report {final}.txt", "{drafts}/x.txt", "a}b.txt", "{}", "{0}.txt", "%(name)s.txt", "%s%d.txt",
               "a b 12", "back\\slash.txt", "tilde~.txt", "colon:name.txt", "@at.txt", "sub dir/in ner.txt",
               "wapdir/inner.txt", "café d/été.txt", "wap/notes.txt", "wap/phones/list.txt", "sale%20off.txt", "a%41.txt",
